@@ -155,6 +155,9 @@ let dispatch name =
   | "wf_obj" -> let tol = rq () in let o = robj () in pbool (Exec.q_wf_obj_b tol o)
   | "basis_ctor" -> let tol = rq () in let p = rint () in let k = rqlist () in let per1 = rnat () in
     pres pbasis (Exec.q_basis_ctor tol (Z.of_int p) k per1)
+  | "obj_make_identical" -> let tol = rq () in let o1 = robj () in let o2 = robj () in let dd = rint () in
+    pres (fun (a, b) -> pobj a; pobj b) (Exec.q_obj_make_identical tol o1 o2 (if dd < 0 then None else Some (nat_of_int dd)))
+  | "obj_compatible" -> let o1 = robj () in let o2 = robj () in let (a, b) = Exec.q_obj_compatible o1 o2 in pobj a; pobj b
   | _ -> out ("UNKNOWN " ^ name)
 
 let () =
